@@ -12,7 +12,9 @@ NOT_APPLICABLE = {
 }
 
 _T = "sound structural necessary conditions of the property, decided exhaustively over the current source of /repo " \
-     "(every rule instance listed in the evidence); not a behavioural proof. "
+     "(every rule instance listed in the evidence); not a behavioural proof. An entry point behind user-defined decorators is " \
+     "analysed through its wrappers, once per way of passing the arguments (DECOR.slots / .signature / .state / .cache-key); " \
+     "monkeypatched or rebound names, class decorators and stateful decorators make the check inconclusive, never silent. "
 
 CLAIMS = {
     "C01": dict(
